@@ -39,6 +39,18 @@ CHECKS = {
  "C10": dict(tech="runtime monitoring: independent grammar-driven LP/MPS text generator (all lexical choices randomised) -> QSread_prob/QSget_prob under sanitizers -> exact comparison with the generating model",
              text="every generated syntactically valid file is accepted and read as exactly the rational problem it denotes (20k files per quick run)",
              note="the generator emits only documented constructs; free-format MPS bound-set names are always explicit (blank names are ambiguous on FR/MI/PL/BV lines)"),
+ "C14": dict(tech="runtime monitoring: basis write/read round trips (solver bases, random type-consistent bases, the problem's own basis) under sanitizers with exact verdict comparison",
+             text="QSwrite_basis -> QSread_basis/QSread_and_load_basis reproduces basic set and at-upper set and the exact dual status/objective; writing the own basis leaves it usable (explored problems/bases)",
+             note="names restricted to valid LP names as the statement says"),
+ "C16": dict(tech="runtime monitoring: copy/edit/solve/free interleavings on original and copies under ASan with per-object model conformance; entry-by-entry comparison of the dbl/mpf conversions with exact rationals",
+             text="copies equal the original in the full query-API dump incl. parameters; objects never influence each other; conversions within one ulp (explored cases)",
+             note="an objective name missing in the original may be defaulted in the copy"),
+ "C18": dict(tech="runtime monitoring: LeakSanitizer, one process per case, GMP slab allocator off; early-exit workloads (mutated files, invalid arguments, non-optimal outcomes) + live-byte probe over repeated create/solve/free cycles",
+             text="no library allocation stays unreleased after every object is freed and QSexactClear was called, on the explored successful and failing call sequences",
+             note="leaks are keyed by allocating library frames; crashing cases are left to C11/C17"),
+ "C20": dict(tech="runtime monitoring: fd 1/2 redirected to capture files sampled after every library call while a log handler is installed; workloads of all other checks weighted to failure paths",
+             text="no byte reached stdout/stderr during ~60k observed library calls (8k of which produced handler messages) per quick run",
+             note="calls whose contract is to write to stdout (NULL filename writers) are not issued"),
 }
 ENGINES = [
  dict(name="qsdrive", path="harness/qsdrive.c", serves_properties=sorted(CHECKS), kind_free_text="script interpreter over the public API writing a before/after event log; built per flavour (gcc ASan+UBSan, plain) from /repo's working tree by build/mkbuild.py"),
